@@ -83,3 +83,14 @@ mod tests {
         assert_eq!(close.reason(), "");
     }
 }
+
+#[cfg(wtransport_verif)]
+#[doc(hidden)]
+#[allow(missing_docs)]
+pub mod verif {
+    use super::*;
+
+    pub fn capsule_kind_parse(id: VarInt) -> Option<CapsuleKind> {
+        CapsuleKind::parse(id)
+    }
+}
